@@ -21,6 +21,8 @@ import (
 	"fmt"
 	"io"
 	"math/rand"
+	"mime"
+	"mime/multipart"
 	"net/http"
 	"net/url"
 	"os"
@@ -94,6 +96,9 @@ func plan(tier string, seed int64) []vh.Batch {
 	}
 	for i := 0; i < nrh; i++ {
 		bs = append(bs, vh.Batch{Name: fmt.Sprintf("race-hist-%d", i), Race: true, TimeoutS: 1500})
+	}
+	for i := 0; i < nc; i++ {
+		bs = append(bs, vh.Batch{Name: fmt.Sprintf("volatile-%d", i), TimeoutS: 900, MemMB: 4096})
 	}
 	bs = append(bs,
 		vh.Batch{Name: "huge-body", TimeoutS: 600, MemMB: 2048},
@@ -785,6 +790,183 @@ func (e *env) runFreshRound(c histCase) {
 	wg.Wait()
 }
 
+// ---------------------------------------------------------------------------
+// volatile files: the file is not what Stat said when the ranges are read
+
+// provenance checks "never returns bytes outside the content" for a file
+// whose content changes (or is shorter than its Stat size): every body byte of
+// a 200/206 answer must be the byte some version of the file has at that
+// offset. Lengths and Content-Length are not judged here (a short but honest
+// answer, a 416, a 404 or an error status are all admitted).
+func provenance(o rangex.Observed, versions [][]byte) string {
+	check := func(b []byte, at int64) string {
+		for i, x := range b {
+			ok := false
+			for _, v := range versions {
+				if int64(len(v)) > at+int64(i) && v[at+int64(i)] == x {
+					ok = true
+					break
+				}
+			}
+			if !ok {
+				return fmt.Sprintf("byte 0x%02x at file offset %d (body offset %d) is not a byte any version of the file has there (versions are %v bytes long)", x, at+int64(i), i, lens(versions))
+			}
+		}
+		return ""
+	}
+	switch o.Status {
+	case 200:
+		return check(o.Body, 0)
+	case 206:
+		ct := o.Header.Get("Content-Type")
+		if mt, params, err := mime.ParseMediaType(ct); err == nil && strings.HasPrefix(mt, "multipart/") {
+			mr := multipart.NewReader(bytes.NewReader(o.Body), params["boundary"])
+			for {
+				p, err := mr.NextRawPart()
+				if err != nil {
+					return ""
+				}
+				data, _ := io.ReadAll(p)
+				var a, b, n int64
+				if k, _ := fmt.Sscanf(p.Header.Get("Content-Range"), "bytes %d-%d/%d", &a, &b, &n); k == 3 {
+					if w := check(data, a); w != "" {
+						return "multipart part " + p.Header.Get("Content-Range") + ": " + w
+					}
+				}
+			}
+		}
+		var a, b, n int64
+		if k, _ := fmt.Sscanf(o.Header.Get("Content-Range"), "bytes %d-%d/%d", &a, &b, &n); k == 3 {
+			return check(o.Body, a)
+		}
+	}
+	return ""
+}
+
+func lens(vs [][]byte) []int {
+	var l []int
+	for _, v := range vs {
+		l = append(l, len(v))
+	}
+	return l
+}
+
+func nonZero(b []byte) []byte {
+	for i := range b {
+		if b[i] == 0 {
+			b[i] = 1
+		}
+	}
+	return b
+}
+
+type volCase struct {
+	Kind   string `json:"kind"` // "volatile"
+	Sub    string `json:"sub"`  // shrinking | short-stat
+	Stream string `json:"stream"`
+	Idx    int    `json:"idx"`
+}
+
+var volRanges = []string{"", "bytes=0-100", "bytes=2-", "bytes=-50", "bytes=0-9,20-29", "bytes=1-1", "bytes=0-4095", "bytes=100-200,300-", "bytes=0-0,-1"}
+
+// runShortStat: a file whose Stat size is larger than what can be read from
+// it (sysfs attributes report a page). The static modifier is rooted at its
+// directory.
+func (e *env) runShortStat(c volCase) {
+	r := e.r
+	const dir, name = "/sys/devices/system/cpu", "online"
+	fi, err := os.Stat(filepath.Join(dir, name))
+	content, err2 := os.ReadFile(filepath.Join(dir, name))
+	if err != nil || err2 != nil || fi.Size() <= int64(len(content)) {
+		r.Count("short_stat_file_unavailable", 1)
+		return
+	}
+	mod := static.NewModifier(dir)
+	for _, rh := range volRanges {
+		req, _, ok := wireRequest("/"+name, rh, rh != "", "")
+		if !ok {
+			continue
+		}
+		cr := callDirect(mod, req, 1<<20)
+		r.Eval(1)
+		if cr.panicked {
+			r.ViolationCase(c, "C20:panic:static.Modifier:short-file", "static.Modifier panicked on a file whose Stat size exceeds its content, Range "+strconv.Quote(rh)+": "+cr.pval, map[string]interface{}{"stack": cr.stack})
+			continue
+		}
+		r.Class(fmt.Sprintf("volatile:short-stat:%d", cr.obs.Status))
+		if w := provenance(cr.obs, [][]byte{content}); w != "" {
+			r.ViolationCase(c, "C20:foreign-bytes:static.Modifier:short-file",
+				fmt.Sprintf("file with Stat size %d holding %d bytes, Range %q: status %d, %s", fi.Size(), len(content), rh, cr.obs.Status, w),
+				map[string]interface{}{"content_range": cr.obs.Header.Get("Content-Range"), "body_len": len(cr.obs.Body), "returned_error": cr.obs.RetErr})
+		}
+	}
+}
+
+// runShrinking: one goroutine keeps rewriting a file below the root,
+// alternating between a long and a short version (os.WriteFile truncates,
+// then writes), while range requests - mostly for bytes only the long version
+// has - are answered from it.
+func (e *env) runShrinking(c volCase) {
+	r := e.r
+	rng := r.Rng(c.Stream, c.Idx)
+	n := 20000 + rng.Intn(40000)
+	m := 1 + rng.Intn(n/2)
+	long := nonZero(vh.Stamp(uint32(8000+c.Idx%50), n))
+	short := nonZero(vh.Stamp(uint32(9000+c.Idx%50), m))
+	rel := fmt.Sprintf("v%d.bin", c.Idx%4)
+	full := filepath.Join(e.root, rel)
+	must(os.WriteFile(full, long, 0o644))
+	stop := make(chan struct{})
+	done := make(chan struct{})
+	go func() {
+		defer close(done)
+		for {
+			select {
+			case <-stop:
+				return
+			default:
+			}
+			os.WriteFile(full, short, 0o644)
+			os.WriteFile(full, long, 0o644)
+		}
+	}()
+	for i := 0; i < 60; i++ {
+		var rh string
+		switch rng.Intn(6) {
+		case 0:
+			rh = ""
+		case 1:
+			rh = fmt.Sprintf("bytes=%d-", m+rng.Intn(n-m))
+		case 2:
+			a := rng.Intn(n)
+			rh = fmt.Sprintf("bytes=%d-%d,%d-%d", a, a+rng.Intn(500), m+rng.Intn(n-m), n-1)
+		case 3:
+			rh = fmt.Sprintf("bytes=-%d", 1+rng.Intn(n))
+		default:
+			a := m + rng.Intn(n-m)
+			rh = fmt.Sprintf("bytes=%d-%d", a, a+rng.Intn(n-a))
+		}
+		req, _, ok := wireRequest("/"+rel, rh, rh != "", "")
+		if !ok {
+			continue
+		}
+		cr := callDirect(e.smod, req, 1<<20)
+		r.Eval(1)
+		if cr.panicked {
+			r.ViolationCase(c, "C20:panic:static.Modifier:changing-file", "static.Modifier panicked on a file that is being rewritten, Range "+strconv.Quote(rh)+": "+cr.pval, map[string]interface{}{"stack": cr.stack})
+			continue
+		}
+		r.Class(fmt.Sprintf("volatile:shrinking:%d", cr.obs.Status))
+		if w := provenance(cr.obs, [][]byte{long, short}); w != "" {
+			r.ViolationCase(c, "C20:foreign-bytes:static.Modifier:changing-file",
+				fmt.Sprintf("file rewritten concurrently (versions of %d and %d bytes), Range %q: status %d, %s", n, m, rh, cr.obs.Status, w),
+				map[string]interface{}{"content_range": cr.obs.Header.Get("Content-Range"), "body_len": len(cr.obs.Body), "returned_error": cr.obs.RetErr})
+		}
+	}
+	close(stop)
+	<-done
+}
+
 type blockCase struct {
 	Kind   string `json:"kind"` // "block"
 	Stream string `json:"stream"`
@@ -1320,6 +1502,20 @@ func run(r *vh.Run, batch string) {
 			}
 			runtime.GC()
 		}
+	case strings.HasPrefix(batch, "volatile-"):
+		stream := "c20-" + batch
+		sc := volCase{Kind: "volatile", Sub: "short-stat", Stream: stream}
+		r.Case(sc)
+		e.runShortStat(sc)
+		n := r.Pick(60, 400)
+		for i := 0; i < n; i++ {
+			c := volCase{Kind: "volatile", Sub: "shrinking", Stream: stream, Idx: i}
+			r.Case(c)
+			e.runShrinking(c)
+			if i%20 == 19 {
+				runtime.GC()
+			}
+		}
 	case batch == "huge-body":
 		n := r.Pick(400, 5000)
 		for i := 0; i < n; i++ {
@@ -1497,6 +1693,17 @@ func replay(r *vh.Run, raw json.RawMessage) {
 		e := newEnv(r)
 		e.ensurePool()
 		e.runHistory(c.Stream, c.Idx, "hist", c)
+	case "volatile":
+		var c volCase
+		json.Unmarshal(raw, &c)
+		e := newEnv(r)
+		if c.Sub == "short-stat" {
+			e.runShortStat(c)
+		} else {
+			for i := 0; i < 20; i++ {
+				e.runShrinking(c)
+			}
+		}
 	case "fresh":
 		var c histCase
 		json.Unmarshal(raw, &c)
